@@ -117,6 +117,9 @@ def run_task(task):
     from ..oracles.locate import snapshot_calls
 
     sites = _sites(task["tier"])
+    if task.get("only_key"):
+        # replay of one disagreement: only the sites of that value (the processes of a full batch take minutes)
+        sites = [s_ for s_ in sites if s_[0] == task["only_key"]]
     src = _file(sites)
     files = {"test_something.py": src, "pyproject.toml": ""}
     if task["fmt"] == "noblack":
@@ -152,11 +155,18 @@ def run_case(case):
     if "pair" not in case:
         r = run_task(case)
         return r["violations"]
-    a = run_task(case["pair"][0])
-    b = run_task(case["pair"][1])
-    sites = _sites(case["pair"][0]["tier"])
+    a = run_task(dict(case["pair"][0], only_key=case["key"]))
+    b = run_task(dict(case["pair"][1], only_key=case["key"]))
+    sites = [s_ for s_ in _sites(case["pair"][0]["tier"]) if s_[0] == case["key"]]
     v = _compare([(case["pair"][0], a), (case["pair"][1], b)], sites, only_key=case["key"])
-    return [x for x in v if x["what"] == case["what"]][:1]
+    v = [x for x in v if x["what"] == case["what"]][:1]
+    if not v:
+        # the disagreement may need the other sites of the batch (something shared between call sites): the full processes again
+        a = run_task(case["pair"][0])
+        b = run_task(case["pair"][1])
+        v = _compare([(case["pair"][0], a), (case["pair"][1], b)], _sites(case["pair"][0]["tier"]), only_key=case["key"])
+        v = [x for x in v if x["what"] == case["what"]][:1]
+    return v
 
 
 def _norm(txt):
